@@ -175,6 +175,7 @@ def run(sc, detail_rhs=False, keep_system=False):
         rhs = traced.WrappedRhs(f, lg, jac=(jacobian(sc.get("problem", "osc")) if sc.get("userjac") else None))
         lg.fault_plan = traced.FaultPlan()
         lg.rhs_budget = int(sc.get("budget", 120000))
+        lg.event_budget = int(sc.get("event_budget", lg.event_budget))
         kw = {}
         if sc.get("rtol") is not None:
             kw["rtol"] = sc["rtol"]
@@ -417,7 +418,9 @@ def normalise(sc, lg):
         elif n == "IntegRet" and last_call is not None:
             tend = np.asarray(last_call["t"], dtype=dt) + np.asarray(e["dT"], dtype=dt)
             e["_tEnd"] = tend
-            e["_yEnd"] = np.asarray(last_call["y"]) + np.asarray(e["dY"])
+            # the system stores y + dY into its buffer: the sum is rounded to the buffer's dtype on assignment
+            # (an implicit method may hand back a wider dY than the state it was given)
+            e["_yEnd"] = (np.asarray(last_call["y"]) + np.asarray(e["dY"])).astype(np.asarray(last_call["y"]).dtype)
             it.see(tend)
     it.freeze()
     eps = num.eps_of(dt)
